@@ -12,12 +12,24 @@ import builtins
 
 from ..model import norm, AnalysisError
 
+_FLIP = {ast.Eq: ast.Eq, ast.NotEq: ast.NotEq, ast.Lt: ast.Gt, ast.Gt: ast.Lt, ast.LtE: ast.GtE, ast.GtE: ast.LtE}
 _IGNORE = {'ctx', 'lineno', 'col_offset', 'end_lineno', 'end_col_offset', 'type_comment', 'kind'}
 _BUILTINS = set(dir(builtins)) | {'self', 'cls', 'np', 'math', 'itertools', 'pd', 'nx', 'os', 'pickle', 'hashlib',
                                   'copy', 'ast', 'super'}
 
 
 def _parse(fragment):
+    kind, node = _parse_raw(fragment)
+    from ..normalize import normalize_expr_tree
+    if kind == 'kw':
+        node.value = normalize_expr_tree(ast.Expression(body=node.value)).body
+        return kind, node
+    if kind in ('if', 'expr'):
+        return kind, normalize_expr_tree(ast.Expression(body=node)).body
+    return kind, normalize_expr_tree(ast.Module(body=[node], type_ignores=[])).body[0]
+
+
+def _parse_raw(fragment):
     f = fragment.strip()
     import re as _re
     mkw = _re.match(r'^(\w+)=(?!=)(.+)$', f)
@@ -77,6 +89,19 @@ class Matcher:
                 fwd[p.id] = n.id
                 bwd[n.id] = p.id
                 return True
+            if isinstance(p, ast.Compare) and len(p.ops) == 1 and len(n.ops) == 1 and type(p.ops[0]) in _FLIP:
+                # `a < b` and `b > a`, `a == b` and `b == a` are one comparison
+                f1, b1 = dict(fwd), dict(bwd)
+                if type(p.ops[0]) is type(n.ops[0]) and self.unify(p.left, n.left, f1, b1) and \
+                        self.unify(p.comparators[0], n.comparators[0], f1, b1):
+                    fwd.clear(); fwd.update(f1); bwd.clear(); bwd.update(b1)
+                    return True
+                f1, b1 = dict(fwd), dict(bwd)
+                if _FLIP[type(p.ops[0])] is type(n.ops[0]) and self.unify(p.left, n.comparators[0], f1, b1) and \
+                        self.unify(p.comparators[0], n.left, f1, b1):
+                    fwd.clear(); fwd.update(f1); bwd.clear(); bwd.update(b1)
+                    return True
+                return False
             for field in p._fields:
                 if field in _IGNORE:
                     continue
